@@ -1,6 +1,7 @@
 import Driver.Common
 import LiskVerif.Model.DiffDB
 import LiskVerif.Model.DiffDBCommit
+import LiskVerif.Model.DiffDBViews
 
 namespace Driver.DiffDB
 open LiskVerif LiskVerif.DiffDB
@@ -9,6 +10,9 @@ structure DSt where
   st : St := { store := [] }
   lastDiff : Option Diff := none
   root : Bytes := []
+  -- snapshot tables of the view handles (Model/DiffDBViews.lean); emptied whenever the overlay's life ends
+  vsnaps : List ((Bytes × Nat) × Cache) := []
+  vcounts : List (Bytes × Nat) := []
 
 def showKVs (l : List KV) (strip : Nat) : String :=
   if l.isEmpty then "-" else
@@ -91,9 +95,28 @@ def step (d : DSt) (w : List String) : DSt × String :=
     match id.toNat? with
     | some id => ({ d with st := deleteSnapshot d.st id }, "ok")
     | none => bad
+  | ["vsnap", p] =>
+    -- Snapshot through the view handle with (relative) prefix p; `-` is the root handle
+    match hexArg p with
+    | some p =>
+      let (v, id) := vsnapshot { st := d.st, vsnaps := d.vsnaps, vcounts := d.vcounts } p
+      ({ d with st := v.st, vsnaps := v.vsnaps, vcounts := v.vcounts }, toString id)
+    | none => bad
+  | ["vrestore", p, id] =>
+    match hexArg p, id.toNat? with
+    | some p, some id =>
+      let (v, ok) := vrestore { st := d.st, vsnaps := d.vsnaps, vcounts := d.vcounts } p id
+      ({ d with st := v.st, vsnaps := v.vsnaps, vcounts := v.vcounts }, if ok then "ok" else "err")
+    | _, _ => bad
+  | ["vdelsnap", p, id] =>
+    match hexArg p, id.toNat? with
+    | some p, some id =>
+      let v := vdelete { st := d.st, vsnaps := d.vsnaps, vcounts := d.vcounts } p id
+      ({ d with st := v.st, vsnaps := v.vsnaps, vcounts := v.vcounts }, "ok")
+    | _, _ => bad
   | ["commit"] =>
     let (st', df) := commit d.st
-    ({ d with st := st', lastDiff := some df }, showDiff df ++ " | " ++ dump st'.store)
+    ({ d with st := st', lastDiff := some df, vsnaps := [], vcounts := [] }, showDiff df ++ " | " ++ dump st'.store)
   | ["commitd"] =>
     -- Commit into a batch that is thrown away (dry run): the staged store stays in use
     let (st', b, df) := commitKeep d.st
@@ -102,7 +125,7 @@ def step (d : DSt) (w : List String) : DSt × String :=
     match d.lastDiff with
     | some df =>
       let s' := revertDiff d.st.store df
-      ({ d with st := { store := s' }, lastDiff := none }, dump s')
+      ({ d with st := { store := s' }, lastDiff := none, vsnaps := [], vcounts := [] }, dump s')
     | none => (d, "err")
   | ["dbrange", s, e, lim, rev] =>
     match hexArg s, hexArg e, intArg lim, boolArg rev with
